@@ -38,7 +38,7 @@ type gwork struct {
 	Table    gpkgh.Table `json:"table"` // schema + the rows handed to the writer(s)
 	// SpareCap: the simulated reader builds its column slices by appending (as the real
 	// reader does), so they may carry spare capacity
-	SpareCap bool `json:"spare_cap"`
+	SpareCap bool   `json:"spare_cap"`
 	Relation string `json:"relation"` // how count relates to page size (probe)
 }
 
@@ -81,7 +81,9 @@ func ident(r *simrt.RNG, used map[string]bool) string {
 	}
 }
 
-var geomTypes = []string{gpkgh.TPolygon, gpkgh.TMultiPolygon, gpkgh.TPoint, gpkgh.TLineString, gpkgh.TMultiPoint, gpkgh.TMultiLineString}
+var geomTypes = []string{gpkgh.TPolygon, gpkgh.TMultiPolygon, gpkgh.TPoint, gpkgh.TLineString, gpkgh.TMultiPoint, gpkgh.TMultiLineString, gpkgh.TCollection, gpkgh.TGeometry}
+
+var concreteTypes = []string{gpkgh.TPolygon, gpkgh.TMultiPolygon, gpkgh.TPoint, gpkgh.TLineString, gpkgh.TMultiPoint, gpkgh.TMultiLineString, gpkgh.TCollection}
 
 func genSRS(r *simrt.RNG) gpkgh.SRS {
 	switch r.Intn(4) {
@@ -121,8 +123,18 @@ func genGeom(r *simrt.RNG, typ string, allowEmpty bool, base float64) *gpkgh.G {
 		return out
 	}
 	empty := allowEmpty && r.Chance(0.12)
+	if typ == gpkgh.TGeometry { // a GEOMETRY column holds any type
+		typ = concreteTypes[r.Intn(len(concreteTypes))]
+	}
 	g := &gpkgh.G{T: typ}
 	switch typ {
+	case gpkgh.TCollection:
+		if !empty {
+			for i, n := 0, 1+r.Intn(3); i < n; i++ {
+				member := []string{gpkgh.TPoint, gpkgh.TLineString, gpkgh.TPolygon}[r.Intn(3)]
+				g.C = append(g.C, genGeom(r, member, false, base))
+			}
+		}
 	case gpkgh.TPoint:
 		g.P = pts(1)
 	case gpkgh.TLineString:
@@ -255,6 +267,8 @@ func genWork(seed uint64) (gwork, simrt.FaultPlan, simrt.MapPolicy, uint64) {
 				row.Geom.L = [][][2]float64{}
 			case gpkgh.TMultiPolygon:
 				row.Geom.M = [][][][2]float64{}
+			case gpkgh.TCollection, gpkgh.TGeometry:
+				row.Geom = &gpkgh.G{T: gpkgh.TCollection}
 			}
 		}
 		// polygon parts get a unique first vertex, so that the pipeline-mode snap stub can
@@ -350,10 +364,9 @@ func shifted(p geom.Polygon, tm int) geom.Polygon {
 func expectedFor(w *gwork, tm int, pipeline bool) *gpkgh.ExpTable {
 	t := &w.Table
 	e := &gpkgh.ExpTable{Name: t.Name, Columns: t.Columns, GeomCol: t.GeomCol, GeomType: t.GeomType, SRSID: t.SRSID}
-	polyTable := t.GeomType == gpkgh.TPolygon || t.GeomType == gpkgh.TMultiPolygon
 	for i, row := range t.Rows {
 		er := gpkgh.ExpRow{Vals: row.Vals, Geom: row.Geom, Label: fmt.Sprintf("feature %d", i)}
-		if pipeline && polyTable {
+		if pipeline && (row.Geom.T == gpkgh.TPolygon || row.Geom.T == gpkgh.TMultiPolygon) {
 			// through the pipeline: per part, kept (shifted) or dropped for this tile matrix
 			var polys [][][][2]float64
 			switch row.Geom.T {
@@ -629,7 +642,9 @@ func TestVerifGpkgsim(t *testing.T) {
 				out.Line(map[string]interface{}{"t": "digest", "seed": seed, "digest": strconv.FormatUint(dg, 16), "steps": rr.sim.Steps,
 					"trace_hash": strconv.FormatUint(simrt.HashString(strings.Join(rr.sim.Trace, "\n")), 16)})
 			}
-			if rr.violation != nil {
+			if rr.violation != nil && job.IsKnown(rr.violation.Class) {
+				sum.Oracles.Inc("known:" + rr.violation.Class)
+			} else if rr.violation != nil {
 				rf := replayFile{Property: job.Property, Engine: "gpkgsim", Seed: seed, Workload: w, Faults: fp, MapPolicy: mp.String(), MapSeed: mapSeed,
 					Tape: rr.sim.Tape, Violation: rr.violation, ShrinkArrays: []string{"workload.table.rows", "workload.targets"}, ShrinkInts: []string{"workload.page_size"}, Trace: rr.sim.Trace}
 				out.Line(map[string]interface{}{"t": "violation", "seed": seed, "replay": rf})
